@@ -314,7 +314,11 @@ def check_userff(case):
 def e2e_case(draw):
     from .. import e2e
 
-    kind = draw(st.sampled_from(["protein", "protein", "protein", "na"]))
+    kind = draw(st.sampled_from(["protein", "protein", "protein", "na", "big"]))
+    if kind == "big":
+        # protein chains and strands in ONE file, 4-30 chains, one long chain
+        desc = draw(e2e.big_structure())
+        return dict(part="e2e", desc=desc, ff=e2e.big_ff(draw, desc), opts=draw(st.sampled_from([[], [], ["--noopt"], ["--whitespace"]])))
     if kind == "na":
         from . import c02
 
@@ -343,7 +347,7 @@ def check_e2e(case):
     res = Result()
     desc, ff, opts = case["desc"], case["ff"], case["opts"]
     s, r = e2e.run_case(desc, ff, opts)
-    res.label(f"ff={ff}", "na" if desc.get("na") else "protein")
+    res.label(f"ff={ff}", f"big={desc['big']}" if desc.get("big") else ("na" if desc.get("na") else "protein"))
     if not r.ok:
         res.label("run-failed")
         return res
